@@ -232,7 +232,7 @@ func (c *ChanObj) canRecv() *Term {
 
 func (c *ChanObj) push(g *Term, v Value) {
 	ring := uint64(c.ring())
-	idx := BinBV(OpURem, BinBV(OpAdd, c.head, c.count), BV(32, ring))
+	idx := wrapRing(BinBV(OpAdd, c.head, c.count), ring)
 	for k := range c.slots {
 		cond := And(g, Eq(idx, BV(32, uint64(k))))
 		if !cond.IsFalse() {
@@ -255,7 +255,7 @@ func (c *ChanObj) pop(g *Term) (Value, *Term) {
 	}
 	val = iteV(nonEmpty, val, zero(c.typ.Elem()))
 	take := And(g, nonEmpty)
-	c.head = Ite(take, BinBV(OpURem, BinBV(OpAdd, c.head, BV(32, 1)), BV(32, uint64(c.ring()))), c.head)
+	c.head = Ite(take, wrapRing(BinBV(OpAdd, c.head, BV(32, 1)), uint64(c.ring())), c.head)
 	c.count = Ite(take, BinBV(OpSub, c.count, BV(32, 1)), c.count)
 	return val, nonEmpty
 }
@@ -378,12 +378,21 @@ func (f *Frame) selectInstr(in *ssa.Select, g *Term) Value {
 	}
 	any := compute()
 	if in.Blocking && !any.IsTrue() {
-		blocked := And(g, Not(any))
-		if e.feasibleW(blocked, "blocked") {
+		for tries := 0; tries < 4; tries++ {
+			blocked := And(g, Not(any))
+			if !e.feasibleW(blocked, "blocked") {
+				break
+			}
+			if len(e.idleHook.alts) == 0 {
+				break
+			}
 			e.runIdle(blocked, in.Pos())
 			any = compute()
-			e.vc("block", "select blocks forever (no case ready after idle hook)", in.Pos(), And(g, Not(any)))
+			if any.IsTrue() {
+				break
+			}
 		}
+		e.vc("block", "select blocks forever (no case ready after the idle hook ran)", in.Pos(), And(g, Not(any)))
 	}
 	// choice
 	var idx *Term
@@ -441,4 +450,13 @@ func (f *Frame) selectInstr(in *ssa.Select, g *Term) Value {
 	}
 	res[1] = recvOk
 	return TupleV{res}
+}
+
+// wrapRing reduces x (< 2*ring) modulo ring without a division circuit.
+func wrapRing(x *Term, ring uint64) *Term {
+	if ring == 1 {
+		return BV(32, 0)
+	}
+	r := BV(32, ring)
+	return Ite(Cmp(OpULt, x, r), x, BinBV(OpSub, x, r))
 }
